@@ -169,7 +169,7 @@ func runOne(spec *runSpec) result {
 			time.Sleep(time.Duration(20+x%180) * time.Microsecond)
 		}
 	}
-	verifhook.Gate = func(string, ...any) { jitter() }
+	verifhook.SetGate(func(string, ...any) { jitter() })
 
 	var inflight, maxInfl int32
 	var aborted int32
